@@ -120,7 +120,8 @@ def rerun(a):
                 print(f"{sid:28s} {pid}: {res['status']:8s} {res['wall_s']:6.1f}s {res['first_message'][:160]}", flush=True)
                 if res["status"] == "harness-error":
                     print(res["tail"])
-            keep = [c for c in meta.get("checks_run", []) if (c["check"], c["tier"]) not in {(n["check"], n["tier"]) for n in new}]
+            keep = [c for c in meta.get("checks_run", [])
+                    if (c["check"], c["tier"], c.get("seed", 1)) not in {(n["check"], n["tier"], n["seed"]) for n in new}]
             meta["checks_run"] = keep + new
             with open(os.path.join(d, "meta.json"), "w") as f:
                 json.dump(meta, f, indent=1)
